@@ -111,8 +111,8 @@ def handle (line : String) : String :=
   | ["LTT", start, dur, ns] => ConvOsu.Wire.handleLTT start dur ns
   | ["CCONV", hr, refl, objs] => ConvCatch.Wire.handleCCONV hr refl objs
   | ["TKPRE", clock, take, objs] => TaikoPre.handleTKPRE clock take objs
-  | ["PIPE", "maniac", keys, hp, cs, od, ar, cd, clock, take, ho, inv, gidx, timing, objs] =>
-    PipelineManiaConvert.Wire.handlePIPEMC keys hp cs od ar cd clock take ho inv gidx timing objs
+  | ["PIPE", "maniac", keys, hp, cs, od, ar, cd, clock, take, ho, inv, rnd, gidx, timing, objs] =>
+    PipelineManiaConvert.Wire.handlePIPEMC keys hp cs od ar cd clock take ho inv rnd gidx timing objs
   | "PIPE" :: "osu" :: args => PipelineOsu.Wire.handlePIPEO args
   | ["PIPE", "catch", version, sm, tr, hr, refl, cs, ar, clock, conv, take, gidx, objs] =>
     PipelineCatch.Wire.handlePIPEC version sm tr hr refl cs ar clock conv take gidx objs
